@@ -121,6 +121,8 @@ inductive Tree
                                          -- (after logging) until the script opens it
   | JM (id : Nat) (x : Tree)             -- Just(obj): the VALUE is itself the MonadIO object built from x (interface{} API);
                                          -- it is a value like any other (code 1000+id), x is not run
+  | Z (t : Tree)                         -- an object built elsewhere (closed: its own bound value is 0), used as a value's monad:
+                                         -- what a continuation returns when it hands back an existing object
   | FR (t : Tree)                        -- t.FlatMap(Just)
   | FL (c : Nat) (t b : Tree)            -- t.FlatMap(func(x){ log call c x; return b[x] })
   | FC (c : Nat) (t b1 b2 : Tree)        -- t.FlatMap(func(x){ log call c x; if x even return b1[x] else b2[x] })
@@ -150,6 +152,7 @@ def den : Tree → Nat → M Nat
   | .H id, _ => new (userEffect id (valN id))
   | .G id, _ => new (userEffect id (valN id))
   | .JM id _, _ => just (1000 + id)
+  | .Z t, _ => new (den t 0).effect
   | .FR t, v => flatMap (den t v) just
   | .FL c t b, v => flatMap (den t v) (kont c (fun x => den b x))
   | .FC c t b1 b2, v => flatMap (den t v) (kont c (fun x => if x % 2 = 0 then den b1 x else den b2 x))
@@ -169,6 +172,7 @@ def run : Tree → (v n : Nat) → Nat × List Kind
   | .H id, _, n => (valN id n, [.eff id])
   | .G id, _, n => (valN id n, [.eff id])
   | .JM id _, _, _ => (1000 + id, [])
+  | .Z t, _, n => run t 0 n
   | .FR t, v, n => run t v n
   | .FL c t b, v, n =>
     let r1 := run t v n
@@ -187,6 +191,7 @@ def run : Tree → (v n : Nat) → Nat × List Kind
 /-- static compositions: no data-dependent branch, so the chain is the same for every input -/
 def Tree.static : Tree → Bool
   | .FR t => t.static
+  | .Z t => t.static
   | .FL _ t b => t.static && b.static
   | .FC .. => false
   | .A _ _ b => b.static
@@ -210,6 +215,7 @@ def labels : Tree → List Label
   | .H id => [.eff id]
   | .G id => [.eff id]
   | .FR t => labels t
+  | .Z t => labels t
   | .FL c t b => labels t ++ .call c :: labels b
   | .FC c t b1 _ => labels t ++ .call c :: labels b1
   | .A _ c b => .call c :: labels b
@@ -314,6 +320,7 @@ deriving Repr
     register j (several objects derived from the SAME object), `gsub` = Subscribe with OnNext whose effect blocks at
     the gate (leaf G) until `gopen`; the operations in between run while that subscription is in flight. -/
 inductive Op | basic (o : BOp) | gsub | gopen | sel (j : Nat) | derive (j c : Nat) (b : Tree)
+  | deriveRet (j c k : Nat)   -- object j := current.FlatMap(func(x){ log call c x; return OBJECT k }) — a continuation handing back an existing object
 deriving Repr
 
 def parseBOp (s : String) : Option BOp :=
@@ -333,6 +340,10 @@ def parseOp (s : String) : Option Op :=
   | ["sg"] => some .gsub
   | ["g-"] => some .gopen
   | ["r", j] => (parseReg j).map .sel
+  | ["X", j, c, k] =>
+    match parseReg j, c.toNat?, parseReg k with
+    | some j, some c, some k => some (.deriveRet j c k)
+    | _, _, _ => none
   | "D" :: j :: c :: rest =>
     match parseReg j, c.toNat?, parseTree (rest.length + 1) rest with
     | some j, some c, some (b, []) => some (.derive j c b)
@@ -378,6 +389,13 @@ def guarded {γ : Type} (allowSame : Bool) (pend : Option (Tag × γ)) (ob sub :
   | some (hb, _) => blocked hb ob sub o
   | none => false
 
+/-- A Subscribe whose SubscribeOn handler is the (buffered) handler h3 that a gated subscription is holding: the effect runs
+    now, the delivery waits in h3's mailbox behind the gated subscription (which must deliver directly, `qok`). -/
+def queues {γ : Type} (pend : Option (Tag × γ)) (qok : Bool) (qlen : Nat) (ob sub : Option Tag) (o : BOp) : Bool :=
+  match o, pend with
+  | .sub, some (hb, _) => qok && hb == .h3 && sub == some .h3 && ob != some .h3 && qlen < 3
+  | _, _ => false
+
 def setReg {γ : Type} (regs : Nat → Option γ) (j : Nat) (x : γ) : Nat → Option γ :=
   fun k => if k = j then some x else regs k
 
@@ -388,6 +406,8 @@ structure ISt where
   w : World
   pend : Option (Tag × (World → World))   -- the handler held by the gated subscription, and what it still has to do
   allowSame : Bool := false
+  queue : List (World → World) := []   -- deliveries waiting in the held handler's mailbox, in order
+  qok : Bool := false                    -- the gated subscription delivers directly (its subOn is nil)
 
 def implStep (st : ISt) : Op → ISt × String
   | .sel j =>
@@ -398,9 +418,15 @@ def implStep (st : ISt) : Op → ISt × String
     match st.regs st.cur with
     | some m => ({ st with regs := setReg st.regs j (flatMap m (kont c (fun x => den b x))) }, "-")
     | none => (st, "bad-op")
+  | .deriveRet j c k =>
+    match st.regs st.cur, st.regs k with
+    | some m, some mk => ({ st with regs := setReg st.regs j (flatMap m (kont c (fun _ => mk))) }, "-")
+    | _, _ => (st, "bad-op")
   | .gopen =>
     match st.pend with
-    | some (_, k) => ({ st with w := k st.w, pend := none }, showEvs ((k st.w).log.drop st.w.log.length))
+    | some (_, k) =>
+      let w2 := st.queue.foldl (fun w f => f w) (k st.w)
+      ({ st with w := w2, pend := none, queue := [], qok := false }, showEvs (w2.log.drop st.w.log.length))
     | none => (st, "-")
   | .gsub =>
     match st.regs st.cur, st.pend with
@@ -408,13 +434,17 @@ def implStep (st : ISt) : Op → ISt × String
       match (if !st.allowSame && sameUnbuffered m.obOn m.subOn then none else m.obOn) with
       | some hb =>
         let p := doSubscribeSplit m logNext m.obOn m.subOn .main st.w
-        ({ st with w := p.1, pend := some (hb, p.2) }, showEvs (p.1.log.drop st.w.log.length))
+        ({ st with w := p.1, pend := some (hb, p.2), queue := [], qok := m.subOn == none },
+         showEvs (p.1.log.drop st.w.log.length))
       | none => (st, "bad-op")
     | _, _ => (st, "bad-op")
   | .basic o =>
     match st.regs st.cur with
     | some m =>
-      if guarded st.allowSame st.pend m.obOn m.subOn o then (st, "bad-op")
+      if queues st.pend st.qok st.queue.length m.obOn m.subOn o then
+        let p := doSubscribeSplit m logNext m.obOn m.subOn .main st.w
+        ({ st with w := p.1, queue := st.queue ++ [p.2] }, showEvs (p.1.log.drop st.w.log.length))
+      else if guarded st.allowSame st.pend m.obOn m.subOn o then (st, "bad-op")
       else
         let r := implOp (m, st.w) o
         ({ st with regs := setReg st.regs st.cur r.1.1, w := r.1.2 }, r.2)
@@ -446,7 +476,7 @@ def headAllowsSame (head : String) : Bool :=
   | a :: _ => a == "gs" || a == "is"
   | [] => false
 
-def istInit (t : Tree) (allowSame : Bool := false) : ISt := ⟨setReg (fun _ => none) 0 (den t 0), 0, w0, none, allowSame⟩
+def istInit (t : Tree) (allowSame : Bool := false) : ISt := ⟨setReg (fun _ => none) 0 (den t 0), 0, w0, none, allowSame, [], false⟩
 
 /-- protocol entry point of the implementation model -/
 def handle (line : String) : String :=
@@ -503,6 +533,8 @@ structure SSt where
   n : Nat
   pend : Option (Tag × Nat × Tag)
   allowSame : Bool := false
+  queue : List (Nat × Tag) := []   -- value and goroutine of every delivery waiting behind the gated subscription
+  qok : Bool := false
 
 def specStep (st : SSt) : Op → SSt × String
   | .sel j =>
@@ -513,9 +545,15 @@ def specStep (st : SSt) : Op → SSt × String
     match st.regs st.cur with
     | some r => ({ st with regs := setReg st.regs j ⟨.FL c r.t b, none, none⟩ }, "-")   -- m.FlatMap(f): a new composition
     | none => (st, "bad-op")
+  | .deriveRet j c k =>
+    match st.regs st.cur, st.regs k with
+    | some r, some rk => ({ st with regs := setReg st.regs j ⟨.FL c r.t (.Z rk.t), none, none⟩ }, "-")
+    | _, _ => (st, "bad-op")
   | .gopen =>
     match st.pend with
-    | some (_, v, g2) => ({ st with n := st.n + 1, pend := none }, joinEvs (showKinds [.next v] g2))
+    | some (_, v, g2) =>
+      ({ st with n := st.n + 1 + st.queue.length, pend := none, queue := [], qok := false },
+       joinEvs (showKinds [.next v] g2 ++ st.queue.map (fun p => showEv ⟨.next p.1, p.2⟩)))
     | none => (st, "-")
   | .gsub =>
     match st.regs st.cur, st.pend with
@@ -523,13 +561,17 @@ def specStep (st : SSt) : Op → SSt × String
       match (if !st.allowSame && sameUnbuffered r.ob r.sub then none else r.ob) with
       | some hb =>
         let q := run r.t 0 st.n
-        ({ st with n := st.n + q.2.length, pend := some (hb, q.1, r.sub.getD hb) }, joinEvs (showKinds q.2 hb))
+        ({ st with n := st.n + q.2.length, pend := some (hb, q.1, r.sub.getD hb), queue := [], qok := r.sub == none },
+         joinEvs (showKinds q.2 hb))
       | none => (st, "bad-op")
     | _, _ => (st, "bad-op")
   | .basic o =>
     match st.regs st.cur with
     | some r =>
-      if guarded st.allowSame st.pend r.ob r.sub o then (st, "bad-op")
+      if queues st.pend st.qok st.queue.length r.ob r.sub o then
+        let q := run r.t 0 st.n
+        ({ st with n := st.n + q.2.length, queue := st.queue ++ [(q.1, .h3)] }, joinEvs (showKinds q.2 (r.ob.getD .main)))
+      else if guarded st.allowSame st.pend r.ob r.sub o then (st, "bad-op")
       else
         let q := specOp' ⟨r.t, r.ob, r.sub, st.n⟩ o
         ({ st with regs := setReg st.regs st.cur ⟨q.1.t, q.1.ob, q.1.sub⟩, n := q.1.n }, q.2)
@@ -540,7 +582,7 @@ def specOp (st : SSt) (op : String) : SSt × String :=
   | some o => specStep st o
   | none => (st, "bad-op")
 
-def sstInit (t : Tree) (allowSame : Bool := false) : SSt := ⟨setReg (fun _ => none) 0 ⟨t, rootOb t, rootSub t⟩, 0, 0, none, allowSame⟩
+def sstInit (t : Tree) (allowSame : Bool := false) : SSt := ⟨setReg (fun _ => none) 0 ⟨t, rootOb t, rootSub t⟩, 0, 0, none, allowSame, [], false⟩
 
 def specCase (line : String) : String :=
   let (head, ops) := splitCase line
